@@ -3,13 +3,36 @@
 package vunix
 
 import (
+	"sync/atomic"
+
 	"golang.org/x/sys/unix"
 
 	"github.com/panjf2000/gnet/v2/internal/vsched"
 )
 
-func Write(fd int, p []byte) (int, error) { vsched.Yield("write"); return unix.Write(fd, p) }
-func Read(fd int, p []byte) (int, error)  { vsched.Yield("read"); return unix.Read(fd, p) }
+// FailWriteAt arms a fault: the k-th write from now fails with EAGAIN without reaching
+// the kernel (an eventfd whose counter is at its ceiling); k <= 0 disarms.
+func FailWriteAt(k int) {
+	atomic.StoreInt32(&writesSeen, 0)
+	atomic.StoreInt32(&failWriteAt, int32(k))
+}
+
+// WriteFaultDelivered reports whether the armed fault has struck.
+func WriteFaultDelivered() bool {
+	k := atomic.LoadInt32(&failWriteAt)
+	return k > 0 && atomic.LoadInt32(&writesSeen) >= k
+}
+
+var failWriteAt, writesSeen int32
+
+func Write(fd int, p []byte) (int, error) {
+	vsched.Yield("write")
+	if k := atomic.LoadInt32(&failWriteAt); k > 0 && atomic.AddInt32(&writesSeen, 1) == k {
+		return -1, unix.EAGAIN
+	}
+	return unix.Write(fd, p)
+}
+func Read(fd int, p []byte) (int, error) { vsched.Yield("read"); return unix.Read(fd, p) }
 
 // EpollWait: a scheduled thread never blocks in the kernel; a wait with an
 // infinite timeout polls, and parks as idle while nothing is ready.
